@@ -280,10 +280,10 @@ def _inline_block(M, fn, stmts: List[ast.stmt], caller_locals: set, changed: Lis
         # recurse into compound statements first
         for fld in ("body", "orelse", "finalbody"):
             if hasattr(st, fld) and isinstance(getattr(st, fld), list) and not isinstance(st, (ast.FunctionDef, ast.AsyncFunctionDef, ast.ClassDef)):
-                setattr(st, fld, _inline_block(M, fn, getattr(st, fld), caller_locals, changed, depth))
+                setattr(st, fld, _inline_block(M, fn, getattr(st, fld), caller_locals, changed, depth + 1))
         if isinstance(st, ast.Try):
             for h in st.handlers:
-                h.body = _inline_block(M, fn, h.body, caller_locals, changed, depth)
+                h.body = _inline_block(M, fn, h.body, caller_locals, changed, depth + 1)
         call = None
         if isinstance(st, ast.Expr) and isinstance(st.value, ast.Call):
             call = st.value
@@ -293,7 +293,8 @@ def _inline_block(M, fn, stmts: List[ast.stmt], caller_locals: set, changed: Lis
         kind = _simple_helper(h.node) if h is not None else None
         if h is not None and kind == "tail":
             pre = []
-            mp = _bind(h, call, pre, {n.id for n in ast.walk(st) if isinstance(n, ast.Name)} if isinstance(st, ast.Return) else None)
+            mp = _bind(h, call, pre, {n.id for n in ast.walk(st) if isinstance(n, ast.Name)}
+                       if isinstance(st, ast.Return) or (depth == 0 and st is expanded[-1]) else None)      # nothing runs after it: names are dead
             if mp is not None:
                 own = _locals_of(h.node) - set(x.arg for x in h.node.args.posonlyargs + h.node.args.args + h.node.args.kwonlyargs)
                 ren = dict(mp)
@@ -317,7 +318,8 @@ def _inline_block(M, fn, stmts: List[ast.stmt], caller_locals: set, changed: Lis
                 continue
         if h is not None and kind in ("stmts", "expr"):
             pre: List[ast.stmt] = []
-            mp = _bind(h, call, pre, {n.id for n in ast.walk(st) if isinstance(n, ast.Name)} if isinstance(st, ast.Return) else None)
+            mp = _bind(h, call, pre, {n.id for n in ast.walk(st) if isinstance(n, ast.Name)}
+                       if isinstance(st, ast.Return) or (depth == 0 and st is expanded[-1]) else None)      # nothing runs after it: names are dead
             if mp is not None:
                 body, ret = _instantiate(h, mp, caller_locals)
                 changed.append(h.qual)
@@ -1014,7 +1016,7 @@ def loopify_return_comp(node: ast.FunctionDef, acc: str = "__acc") -> ast.Functi
     return new
 
 
-def normalise(M, fn, subst: bool = False, guards: bool = False, keep=(), comps: bool = False, ifexp: bool = False) -> ast.FunctionDef:
+def normalise(M, fn, subst: bool = False, guards: bool = False, keep=(), comps: bool = False, ifexp: bool = False, closures: bool = False) -> ast.FunctionDef:
     """a normalised deep copy of fn.node (see module docstring)"""
     node = copy.deepcopy(fn.node)
     for _ in range(4):
@@ -1033,10 +1035,14 @@ def normalise(M, fn, subst: bool = False, guards: bool = False, keep=(), comps: 
         _if_to_ifexp(node)
     if comps:
         _loops_to_comps(node)
-    if subst:
+    if subst or closures:
         _inline_closures(node, [])
+    if subst:
         _split_tuple_assigns(node)
         _forward_subst(node, set(keep), alias_only=(subst == "alias"))
+    elif closures:
+        # only the temporaries introduced for the closures' arguments are put back
+        _forward_subst(node, {n.id for n in ast.walk(node) if isinstance(n, ast.Name) and not n.id.startswith("__")}, alias_only=True)
     node = _OperatorCalls(M, fn).visit(node)
     ast.fix_missing_locations(node)
     return node
